@@ -387,19 +387,40 @@ type invoker func(c *Call, ops []*opInst) []reflect.Value
 
 // runStats accumulates per-case statistics.
 type runStats struct {
-	calls, written, unchangedChecked, poisonSlots, writeOnlySlots, retChecked int64
-	multi                                                                     bool // some written element depends on ≥ 2 operand elements
+	calls, written, unchangedChecked, poisonSlots, sentinelSlots, writeOnlySlots, retChecked int64
+	multi                                                                                    bool // some written element depends on ≥ 2 operand elements
+}
+
+// fillSpec is one fill of a call: the value pattern, how many elements the
+// slices are longer than necessary, and what unaddressed storage holds.
+//
+// Two guard modes complement each other: NaN poison (Finite == false) makes
+// any *read* of unaddressed storage visible in the results; finite distinct
+// sentinels (Finite == true) make any *write* visible, including
+// multiplicative/additive ones (x *= beta, x += 0·y) that leave a NaN
+// bitwise unchanged. Write-only result elements (beta == 0) and ignored
+// Hermitian diagonal imaginary parts are NaN in both modes.
+type fillSpec struct {
+	Pattern uint64
+	Slack   int
+	Finite  bool
+}
+
+func (f fillSpec) String() string {
+	g := "nan"
+	if f.Finite {
+		g = "finite"
+	}
+	return fmt.Sprintf("%d/slack%d/%s", f.Pattern, f.Slack, g)
 }
 
 // runCall executes one call and returns "" or a description of the first discrepancy.
-func runCall(c *Call, fill uint64, inv invoker, st *runStats) string {
+func runCall(c *Call, fs fillSpec, inv invoker, st *runStats) string {
 	r := c.R
 	cm := c.P.Complex()
 	hasBeta := r.Has("beta")
-	slack := 0
-	if fill&1 == 1 {
-		slack = 2
-	}
+	slack := fs.Slack
+	fill := fs.Pattern
 	ops := make([]*opInst, len(r.Ops))
 	ctx := &Ctx{Call: c, ops: ops, RetIdx: -2}
 	for k := range r.Ops {
@@ -438,7 +459,7 @@ func runCall(c *Call, fill uint64, inv invoker, st *runStats) string {
 		s := newStore(c.P, total)
 		o.st = s
 		for i := 0; i < total; i++ {
-			s.setPoison(i, k*5000+i)
+			s.fillGuard(i, k*5000+i, fs.Finite)
 		}
 		for p, kind := range o.slot {
 			switch kind {
@@ -453,8 +474,13 @@ func runCall(c *Call, fill uint64, inv invoker, st *runStats) string {
 				}
 				st.poisonSlots++
 			case slotPoison:
-				st.poisonSlots++
+				if fs.Finite {
+					st.sentinelSlots++
+				} else {
+					st.poisonSlots++
+				}
 			case slotWriteOnly:
+				s.setPoison(padPre+p, k*5000+padPre+p)
 				st.writeOnlySlots++
 			}
 		}
